@@ -31,7 +31,7 @@ EXPLANATION = (
 ASSUMPTIONS = ["torch.gather(v, -1, idx) selects v at idx; v[..., :-1] / v[..., 1:] are the left / right knot values of each interval",
                "torch.searchsorted(x, xq, right=False) returns the index of the first knot >= xq",
                "torch.linalg.solve(L, R) returns L^-1 R; torch.diagonal returns a writable view",
-               "the slope system is interpreted for grids large enough that the named boundary columns (0, 1, 2, -1, -2, -3) are distinct (nr >= 6)"]
+               "the slope system is interpreted for a symbolic size nr >= 6 (named boundary columns distinct) and, separately, for the concrete small sizes nr = 3, 4, 5"]
 
 I1D = "xitorch/_impls/interpolate/interp_1d.py"
 INTERP = "xitorch/interpolate/interp1.py"
